@@ -486,6 +486,8 @@ def run(chk, replay=None):
     changer(chk)
     from .c13_reservations import reservations
     reservations(chk)
+    from .c13_modepages import modepages
+    modepages(chk)
     # ---- TLC judges ---------------------------------------------------------------------------------------
     vs, st = tlc.judge_traces("Trace_Facade", "Trace_Facade.cfg", calls, name="c13trf")
     ev.judged("Trace_Facade", st, len(calls))
